@@ -154,9 +154,38 @@ var (
 	fDebug   = flag.Bool("sim.debug", false, "verify goroutine identity at every trap")
 	fDump    = flag.Bool("sim.dumpplan", false, "always write the realised plan")
 	fRecheck = flag.Int("sim.recheck", 0, "re-execute every Nth run from its realised plan and compare hashes")
+	fKnown   = flag.String("sim.known", "", "known_findings.json: open findings steer a dedicated slice of runs")
 	fDumpMsg = flag.String("sim.dumpmsg", "", "print input and emissions of this message id")
 	fBudget  = flag.Duration("sim.budget", 0, "stop starting new runs after this wall time")
 )
+
+var openFindings map[string]bool
+
+// openFinding reports whether the finding id is listed as open; the main body
+// of runs avoids its trigger and a dedicated slice of runs aims at it.
+func openFinding(id string) bool {
+	if openFindings == nil {
+		openFindings = map[string]bool{}
+		if *fKnown != "" {
+			if b, err := os.ReadFile(*fKnown); err == nil {
+				var kf struct {
+					Findings []struct {
+						ID     string `json:"id"`
+						Status string `json:"status"`
+					} `json:"findings"`
+				}
+				if json.Unmarshal(b, &kf) == nil {
+					for _, f := range kf.Findings {
+						if f.Status == "" || f.Status == "open" {
+							openFindings[f.ID] = true
+						}
+					}
+				}
+			}
+		}
+	}
+	return openFindings[id]
+}
 
 func runSeed(base uint64, i int) uint64 { return simrt.Mix(base, uint64(i)+1) }
 
